@@ -113,11 +113,14 @@ type Logout struct {
 	ID, InResponseTo, Destination, Version, IssueInstant *string
 	Issuer                                               *string
 	IssuerFormat                                         *string
-	NameID                                               *string
-	SessionIndex                                         *string
-	HasStatus                                            bool
-	StatusCodes                                          []string
-	Sig                                                  *SigSpec
+	// NotOnOrAfter, Reason, Consent: optional attributes of the schema (the first two on LogoutRequest) that the
+	// library's profile checks do not mention
+	NotOnOrAfter, Reason, Consent *string
+	NameID                        *string
+	SessionIndex                  *string
+	HasStatus                     bool
+	StatusCodes                   []string
+	Sig                           *SigSpec
 }
 
 // Env is what a conforming IdP knows about the SP and the time.
@@ -299,6 +302,7 @@ func (l *Logout) Node() *Node {
 	n := El(NSP, tag)
 	n.Signable = true
 	n.AOpt("ID", l.ID).AOpt("InResponseTo", l.InResponseTo).AOpt("Version", l.Version).AOpt("IssueInstant", l.IssueInstant).AOpt("Destination", l.Destination)
+	n.AOpt("NotOnOrAfter", l.NotOnOrAfter).AOpt("Reason", l.Reason).AOpt("Consent", l.Consent)
 	if l.Issuer != nil {
 		n.Add(El(NSA, "Issuer").AOpt("Format", l.IssuerFormat).T(*l.Issuer))
 	}
